@@ -359,7 +359,7 @@ def rule_mx6(ctx: Ctx) -> RuleResult:
 def rule_mx7(ctx: Ctx) -> RuleResult:
     """MX-7: tee_map lifecycle de-duplication over its branches."""
     r = RuleResult("MX-7", "tee_map: Create forwarded by the first branch only, Completed by the last branch only")
-    site = ctx.site("rxsci/operators/tee_map.py", "_process_many.subscribe_mux")
+    site = ctx.site("rxsci/operators/tee_map.py", "_process_many.subscribe_mux", kind="mux")
     specs = site.handler_specs("on_next")
     if len(specs) != 1 or not specs[0].bound:
         raise AnalysisError("tee_map.subscribe_mux: expected one on_next handler bound to the branch index")
